@@ -1,9 +1,12 @@
 #!/bin/sh
 # usage: tools/replay_refactorings.sh  - every stored behaviour-preserving patch must leave all 20 checks at exit 0
-bad=0
-for d in /verif/refactorings/*/; do
-  u=""; [ -f "$d/UNDECIDED_OK" ] && u=$(cat "$d/UNDECIDED_OK")
-  out=$(UNDECIDED_OK="$u" /verif/tools/try_refactor.sh "$d/patch.diff" 2>&1); echo "== $(basename $d): $(echo "$out" | tail -1)"
-  echo "$out" | grep -q "checks not at exit 0: 0" || { bad=$((bad+1)); echo "$out" | tail -6; }
-done
-echo "refactoring patches with alarms: $bad"; [ $bad -eq 0 ]
+# (JOBS patches are replayed in parallel, default 6; each in its own scratch copy and snapshot of the machinery)
+one() {
+  d=$1; u=""; [ -f "$d/UNDECIDED_OK" ] && u=$(cat "$d/UNDECIDED_OK")
+  out=$(UNDECIDED_OK="$u" /verif/tools/try_refactor.sh "$d/patch.diff" 2>&1)
+  if echo "$out" | grep -q "checks not at exit 0: 0"; then echo "== $(basename $d): clean"; else echo "== $(basename $d): ALARM"; echo "$out" | tail -6; fi
+}
+if [ "$1" = "--one" ]; then one "$2"; exit 0; fi
+L=$(mktemp /tmp/replay-rf.XXXXXX); trap 'rm -f "$L"' EXIT
+ls -d /verif/refactorings/*/ | xargs -P ${JOBS:-6} -I{} sh -c '/verif/tools/replay_refactorings.sh --one {} > '"$L"'.$$ 2>&1; cat '"$L"'.$$; rm -f '"$L"'.$$' | tee "$L"
+bad=$(grep -c ": ALARM" "$L"); echo "refactoring patches replayed: $(grep -c '^== ' "$L"), with alarms: $bad"; [ "$bad" -eq 0 ]
